@@ -4,6 +4,7 @@ import vlib
 
 PROP = "C11"
 EXTRACT = "Extract/C11x.vo"
+EXTRACT_F = "Extract/C11Fx.vo"
 WORK = os.path.join(vlib.CACHE, "c11")
 FMT = "harness/src/bin/c11.rs header: <id> : <container bytes in hex> : observations"
 DEC = {"0": "Ok", "1": "InvalidMagic", "2": "UnexpectedEof", "3": "InvalidHeader", "4": "SectionAlignment", "5": "InvalidSectionTable", "6": "InvalidChecksum",
@@ -23,6 +24,40 @@ def run_shard(harness, k, n, sd, cases_file=None):
     if rc != 0:
         raise vlib.CheckError("c11 run failed (rc %d): %s" % (rc, o[-1000:]))
     return out
+
+
+def section_tie(files, sd, tier):
+    """contents of every section: the real decoder's result (harness/src/bin/c11dump.rs, dumped as the tree text of
+    Model/StbcSections.v) against the extracted dec_section / enc_section on the same payload bytes; also on per-section
+    mutations, minor-0 re-encodings and synthetic modules written by the real encoder. Returns (stats, first mismatch or None)."""
+    dump = vlib.cargo_build("c11dump")
+    drv = vlib.ocaml_build("C11F", use_zutil=False)
+    cases = os.path.join(WORK, "tie-cases.txt")
+    with open(cases, "w") as out:
+        for f in files[: (2 if tier == "quick" else len(files))]:
+            for line in open(f):
+                parts = line.split(" : ")
+                if len(parts) >= 2:
+                    out.write(parts[0] + " : " + parts[1].strip() + "\n")
+    pay, exp, mod = (os.path.join(WORK, n) for n in ("tie-payloads.txt", "tie-expected.txt", "tie-model.txt"))
+    env = vlib.env_base(); env["VERIF_SEED"] = str(sd)
+    rc, o = vlib.run([dump, cases, pay, exp, "2" if tier == "quick" else "3", "40" if tier == "quick" else "200"], env=env, timeout=2400)
+    if rc != 0:
+        raise vlib.CheckError("c11dump failed (rc %d): %s" % (rc, o[-800:]))
+    rc, o = vlib.run(["sh", "-c", "'%s' < '%s' > '%s'" % (drv, pay, mod)], timeout=2400)
+    if rc != 0:
+        raise vlib.CheckError("c11f driver failed (rc %d): %s" % (rc, o[-800:]))
+    e = open(exp).read().split("\n"); m = open(mod).read().split("\n"); pl = open(pay).read().split("\n")
+    stats = {"section_lines": len([x for x in e if x]), "trees": sum(1 for x in e if x and not x.endswith(" ERR") and not x.endswith(" PANIC")),
+             "rejected": sum(1 for x in e if x.endswith(" ERR")), "panics": sum(1 for x in e if x.endswith(" PANIC")),
+             "reencode_equal": sum(1 for x in e if x.endswith(" RT1")), "reencode_differs": sum(1 for x in e if x.endswith(" RT0"))}
+    first = None
+    for i in range(max(len(e), len(m))):
+        a = e[i] if i < len(e) else "<missing>"; b = m[i] if i < len(m) else "<missing>"
+        if a != b:
+            first = {"section_case": pl[i] if i < len(pl) else "", "implementation": a[:2000], "model": b[:2000]}
+            break
+    return stats, first
 
 
 def describe(r):
@@ -51,7 +86,7 @@ def check(tier):
     t0 = time.time()
     sd = vlib.seed()
     harness = vlib.cargo_build("c11")
-    pr = vlib.prove(PROP, [EXTRACT])
+    pr = vlib.prove(PROP, [EXTRACT, EXTRACT_F])
     driver = vlib.ocaml_build(PROP, use_zutil=False)
     shards, per = (6, 300) if tier == "quick" else (16, 1500)
     with concurrent.futures.ThreadPoolExecutor(shards) as ex:
@@ -71,6 +106,14 @@ def check(tier):
         crash = any("PANIC" in w or "ABORT" in w or "panicked" in w or "emitted" in w or "differs from m" in w for w in what)
         path = vlib.write_replay(PROP, {"property": PROP, "what": what, "case_id": r["id"], "case_line": r["line"].split(" | ")[0], "model_frame_class": r["model"], "failing_cases": len(bad), "format": FMT})
         violations.append((path, what[0], not crash))
+    tie_stats, tie_bad = section_tie(files, sd, tier)
+    if tie_bad or tie_stats["panics"]:
+        panic = tie_stats["panics"] > 0
+        what = ("the real decoder panicked on a section payload" if panic else
+                "section contents: BytecodeModule::decode / encode and the model's dec_section / enc_section (Model/StbcSections.v) differ on a section payload (tree, accept / reject, or whether re-encoding reproduces the bytes)")
+        path = vlib.write_replay(PROP, {"property": PROP, "broken": "correspondence Model/StbcSections.v <-> bytecode/decode.rs, encode.rs", "what": what, "first_difference": tie_bad,
+                                        "format": "harness/src/bin/c11dump.rs header: <case>.<k> <minor> <section id> <payload hex>; tree text = N<dec> | B<hex> | L( .. )", "stats": tie_stats})
+        violations.append((path, what, not panic))
     if errors:
         path = vlib.write_replay(PROP, {"property": PROP, "what": "harness error", "detail": errors[0]["error"][:3000]})
         violations.append((path, "harness/driver error: " + errors[0]["error"][:200], False))
@@ -88,10 +131,11 @@ def check(tier):
         "evaluations": len(results), "distinct_nontrivial": len(set(r["line"].split(" : ")[1] for r in good if r["impl"].split()[1] not in ("1",))),
         "rule": "containers the compiler emits for four programs (types, FBs, classes/interfaces, tasks, I/O bindings, RETAIN); structure-aware mutations of them (header fields, section-table fields, any 32-bit word of any section set to 0, 1, 2^31-1, 2^31, 2^32-1, +-1, the section length, random; truncation; bit flips) with the CRC recomputed or the CRC flag cleared in most cases; random bytes with or without the magic; every case is decoded, re-encoded, validated and - when it validates - turned into metadata and applied to a runtime inside child processes with a 3 GB address-space limit (a dying child = ABORT); non-trivial = got past the magic check",
         "decode_outcomes": classes, "validated_containers": validated,
-        "samples": [r["line"][:160] for r in good[:2]], "judge_failures": len(bad),
+        "samples": [r["line"][:160] for r in good[:2]], "judge_failures": len(bad), "section_content_tie": tie_stats,
     }
     assumptions = ["the CRC-32 function is a parameter of the model; the harness supplies crc32fast's value for the table-to-end tail",
-                   "only the frame (header, section table, bounds, overlap, CRC gate, version) and the string table are modelled exactly; the other section decoders, validate(), metadata() and apply are exercised for crashes, round trip and emitted-container acceptance but their results are not predicted by the model",
+                   "the frame (header, section table, bounds, overlap, CRC gate, version) and the contents of every section kind (Model/StbcFmt.v format calculus, Model/StbcSections.v descriptors transcribed from decode.rs) are modelled and compared with the real decoder / encoder section by section; error kinds are collapsed to reject; validate(), metadata() and apply are exercised for crashes and emitted-container acceptance but their results are not predicted by the model",
+                   "decode then encode is the identity only on canonical payloads (zero reserved / padding bytes, no trailing bytes, type-table offsets as the encoder lays them out): proved in that form (enc_dec_canonical), and the harness compares the RT flag of the real encoder with the model's instead of demanding identity",
                    "memory: the harness limits the address space instead of measuring allocations; the allocation theorem is stated for the string-table decoder, the same min(count, remaining) pattern is used at all 26 sites",
                    "the instruction-stream validator and hot reload of a running program are not modelled"]
     return vlib.finish(PROP, tier, "proof", cov, assumptions, t0, violations)
